@@ -6,6 +6,7 @@ use crate::engine::{guard, Ctx, Kind, Property, SubCheck};
 use crate::gen::*;
 use crate::inh;
 use oracle::{Big, Hp};
+use std::convert::TryFrom;
 use twofloat::TwoFloat;
 
 /// (1 + s*beta)^k * x, exact
@@ -44,7 +45,7 @@ fn c13_sqrt(ctx: &mut Ctx) {
     let c = ctx.weighted(&[12, 1, 1, 1]);
     let x = match c {
         0 => {
-            let d = dd_exp(ctx, -900, 899, false);
+            let d = dd_closed(ctx, -900, 900, false);
             if d.hi < 0.0 {
                 d.neg()
             } else {
@@ -68,7 +69,7 @@ fn c13_sqrt(ctx: &mut Ctx) {
         }
         _ => {
             ctx.label("negative");
-            let d = dd_exp(ctx, -900, 899, false);
+            let d = dd_closed(ctx, -900, 900, false);
             if d.hi > 0.0 {
                 d.neg()
             } else {
@@ -80,6 +81,7 @@ fn c13_sqrt(ctx: &mut Ctx) {
     note_dd(ctx, "x", x);
     let Some(r) = run_tf(ctx, "sqrt", || inh::sqrt(x.tf())) else { return };
     note_dd(ctx, "sqrt", r);
+    crate::p_forms::routes_agree(ctx, "sqrt", x, r);
     let v = x.big();
     if v.is_zero() {
         check!(ctx, both_zero(r), "sqrt({}) = {} instead of 0", x.show(), r.show());
@@ -104,7 +106,7 @@ fn c13_sqrt(ctx: &mut Ctx) {
 fn c13_cbrt(ctx: &mut Ctx) {
     let c = ctx.weighted(&[12, 1, 1]);
     let x = match c {
-        0 => dd_exp(ctx, -900, 899, false),
+        0 => dd_closed(ctx, -900, 900, false),
         1 => {
             ctx.label("perfect-cube");
             let r = dd_exp(ctx, -290, 290, false);
@@ -124,6 +126,7 @@ fn c13_cbrt(ctx: &mut Ctx) {
     note_dd(ctx, "x", x);
     let Some(r) = run_tf(ctx, "cbrt", || inh::cbrt(x.tf())) else { return };
     note_dd(ctx, "cbrt", r);
+    crate::p_forms::routes_agree(ctx, "cbrt", x, r);
     let v = x.big();
     if v.is_zero() {
         check!(ctx, both_zero(r), "cbrt({}) = {} instead of 0", x.show(), r.show());
@@ -142,8 +145,8 @@ fn c13_cbrt(ctx: &mut Ctx) {
 }
 
 fn c13_hypot(ctx: &mut Ctx) {
-    let x = dd_exp(ctx, -400, 399, false);
-    let y = if ctx.chance(1, 10) { dd_exp(ctx, -400, 399, false) } else { related(ctx, x, -400, 399) };
+    let x = dd_closed(ctx, -400, 400, false);
+    let y = if ctx.chance(1, 10) { dd_closed(ctx, -400, 400, false) } else { related(ctx, x, -400, 399) };
     x.key(ctx);
     y.key(ctx);
     note_dd(ctx, "x", x);
@@ -220,6 +223,24 @@ fn c13_powi(ctx: &mut Ctx) {
         }
     };
     note_dd(ctx, "powi", r);
+    {
+        use num_traits::Pow;
+        let same = |a: Result<TwoFloat, String>| a.map(Dd::of).ok().map(|d| same_dd(d, r)) == Some(true);
+        let ok = same(guard(|| <TwoFloat as num_traits::Float>::powi(t, n))) && same(guard(|| <TwoFloat as num_traits::float::FloatCore>::powi(t, n))) && same(guard(|| Pow::pow(t, n))) && same(guard(|| Pow::pow(&t, &n)));
+        check!(ctx, ok, "powi({}, {n}): a num_traits route (Float / FloatCore / Pow<i32>) differs from the inherent method = {}", x.show(), r.show());
+        if let Ok(n16) = i16::try_from(n) {
+            check!(ctx, same(guard(|| Pow::pow(t, n16))), "Pow<i16>::pow({}, {n}) differs from powi = {}", x.show(), r.show());
+        }
+        if let Ok(n8) = i8::try_from(n) {
+            check!(ctx, same(guard(|| Pow::pow(t, n8))), "Pow<i8>::pow({}, {n}) differs from powi = {}", x.show(), r.show());
+        }
+        if let Ok(u16v) = u16::try_from(n) {
+            check!(ctx, same(guard(|| Pow::pow(t, u16v))), "Pow<u16>::pow({}, {n}) differs from powi = {}", x.show(), r.show());
+        }
+        if let Ok(u8v) = u8::try_from(n) {
+            check!(ctx, same(guard(|| Pow::pow(t, u8v))), "Pow<u8>::pow({}, {n}) differs from powi = {}", x.show(), r.show());
+        }
+    }
     let v = x.big();
     if n == 0 {
         if v.is_zero() {
